@@ -58,7 +58,7 @@ def linform(b, op, at, depth=0):
         return {1: v} if v else {}
     pl = op["place"]
     l = pl["l"]
-    if depth > 14:
+    if depth > 60:
         return {("loc", l): 1}
     if pl["p"]:
         # tuple component of a checked arithmetic op: `_t = SubWithOverflow(a, b); x = move _t.0`
@@ -71,8 +71,11 @@ def linform(b, op, at, depth=0):
                 return linform(b, ds[0]["rv"]["ops"][0], ds[0]["bb"], depth + 1)
         if len(pl["p"]) == 1 and isinstance(pl["p"][0], dict) and isinstance(pl["p"][0].get("f"), int):
             ds = [d for d in b.defs().get(l, ()) if d["kind"] == "assign" and not d["lhs"]["p"] and b.def_reaches(d, at)]
-            if len(ds) == 1 and ds[0]["rv"]["k"] == "agg" and ds[0]["rv"].get("ak") == "tuple" and pl["p"][0]["f"] < len(ds[0]["rv"]["ops"]):
+            if len(ds) == 1 and ds[0]["rv"]["k"] == "agg" and ds[0]["rv"].get("ak") in ("tuple", "adt") and pl["p"][0]["f"] < len(ds[0]["rv"]["ops"]):
                 return linform(b, ds[0]["rv"]["ops"][pl["p"][0]["f"]], ds[0]["bb"], depth + 1)
+            if len(ds) == 1 and ds[0]["rv"]["k"] == "use" and ds[0]["rv"]["op"].get("k") in ("copy", "move"):
+                o = ds[0]["rv"]["op"]
+                return linform(b, {"k": "copy", "place": {"l": o["place"]["l"], "p": list(o["place"]["p"]) + list(pl["p"])}}, ds[0]["bb"], depth + 1)
         return {place_atom(b, pl): 1}
     if 1 <= l <= b.arg_count:
         return {("param", l): 1}
